@@ -61,7 +61,7 @@ def rebuild(obj):
     from shapepy import shape as shp
 
     def curve(jordan):
-        segs = [[(p._x, p._y) for p in seg.ctrlpoints] for seg in jordan.segments]
+        segs = [[(p[0], p[1]) for p in seg.ctrlpoints] for seg in jordan.segments]
         return shapepy.JordanCurve.from_ctrlpoints(segs)
 
     if isinstance(obj, shapepy.JordanCurve):
@@ -78,11 +78,15 @@ def rebuild(obj):
 def memo_tables():
     from shapepy import curve as crv
 
-    return {
-        "caract": crv.Math._Math__caract_matrix,
-        "decre": crv.Operations._Operations__degree_decre,
-        "deriv": crv.Derivate._Derivate__non_rat_bezier_once,
-    }
+    # private memo tables: read if they exist under these names (a refactoring may rename them;
+    # then this leg observes nothing, which is reported in the evidence, not an alarm)
+    out = {}
+    for key, owner, attr in (("caract", "Math", "_Math__caract_matrix"), ("decre", "Operations", "_Operations__degree_decre"),
+                             ("deriv", "Derivate", "_Derivate__non_rat_bezier_once")):
+        tab = getattr(getattr(crv, owner, None), attr, None)
+        if isinstance(tab, dict):
+            out[key] = tab
+    return out
 
 
 def memo_snapshot():
